@@ -11,11 +11,31 @@ import tempfile
 VERIF = os.path.dirname(os.path.dirname(os.path.abspath(__file__)))
 
 
+_SNAP = None
+
+
+def _snapshot() -> str:
+    """A long sensitivity run executes a frozen copy of the machinery, so that /verif may be edited meanwhile."""
+    global _SNAP
+    if _SNAP is None:
+        import atexit
+
+        _SNAP = tempfile.mkdtemp(prefix="verif-snap-")
+        for d in ("checks", "simworld", "ref", "tables"):
+            shutil.copytree(os.path.join(VERIF, d), os.path.join(_SNAP, d), ignore=shutil.ignore_patterns("__pycache__"))
+        for f in ("known_findings.json", "properties.jsonl"):
+            shutil.copy(os.path.join(VERIF, f), _SNAP)
+        snap, pid = _SNAP, os.getpid()
+        atexit.register(lambda: os.getpid() == pid and shutil.rmtree(snap, ignore_errors=True))
+    return _SNAP
+
+
 def _run_check(check_id: str, src: str, extra=(), hashseed="0", workers=None):
-    env = dict(os.environ, PYTHONHASHSEED=hashseed, PYTHONPATH=VERIF, VERIF_REPO_SRC=src)
+    root = _snapshot() if os.environ.get("VERIF_SNAPSHOT") else VERIF
+    env = dict(os.environ, PYTHONHASHSEED=hashseed, PYTHONPATH=root, VERIF_REPO_SRC=src)
     if workers:
         env["VERIF_WORKERS"] = str(workers)
-    cmd = [sys.executable, "-u", os.path.join(VERIF, "checks", "main.py"), check_id, "--tier", "quick", "--no-evidence", *extra]
+    cmd = [sys.executable, "-u", os.path.join(root, "checks", "main.py"), check_id, "--tier", "quick", "--no-evidence", *extra]
     return subprocess.run(cmd, capture_output=True, text=True, env=env, timeout=3000)
 
 
